@@ -29,7 +29,9 @@ def gen_case(rng):
     tree = U.gen_fiber(rng, n, shapes, 0)
     return {"kind": kind, "n": n, "shapes": shapes, "tree": tree, "seed": rng.randint(0, 10 ** 6),
             "depth": rng.randint(0, n - 1), "arg": rng.randint(1, 4),
-            "perm": rng.sample(range(n), n), "mut": [[rng.randint(0, 5) for _ in range(n)] for _ in range(rng.randint(0, 4))]}
+            "perm": rng.sample(range(n), n),
+            "mut": [[rng.randint(0, max(0, shapes[i] - 1)) for i in range(rng.randint(1, n))]
+                    for _ in range(rng.choice([0, 0, 1, 2, 3]))]}
 
 
 def streams(tier, rng):
@@ -93,24 +95,29 @@ def state_obs(T):
 
 
 def build(case):
+    """returns (result tensor, source tensor or None)"""
     import copy, os, tempfile
     from fibertree import Tensor, Fiber
     n, kind = case["n"], case["kind"]
     ids = U.RANK_NAMES[:n]
     base = U.build_tensor(case["tree"], n, case["shapes"], 0)
+    # the source carries a few reference insertions (stored-but-empty sub-fibers, explicit
+    # defaults) as real use leaves behind
+    for pt in case["mut"]:
+        base.getPayloadRef(*pt[:n])
     if kind == "fromFiber":
-        return base
+        return base, None
     if kind == "fromUncompressed":
         nest = base.getRoot().uncompress(shape=case["shapes"]) if case["tree"] else None
         if nest is None:
-            return Tensor.fromUncompressed(ids, _zeros(case["shapes"]))
-        return Tensor.fromUncompressed(ids, nest)
+            return Tensor.fromUncompressed(ids, _zeros(case["shapes"])), base
+        return Tensor.fromUncompressed(ids, nest), base
     if kind == "fromRandom":
-        return Tensor.fromRandom(ids, case["shapes"], [0.6] * n, 5, seed=case["seed"])
+        return Tensor.fromRandom(ids, case["shapes"], [0.6] * n, 5, seed=case["seed"]), None
     if kind == "empty":
-        return Tensor(rank_ids=ids, shape=case["shapes"])
+        return Tensor(rank_ids=ids, shape=case["shapes"]), None
     if kind == "makePopulated":
-        return Tensor.makePopulated(ids, case["shapes"], initial=1)
+        return Tensor.makePopulated(ids, case["shapes"], initial=1), None
     if kind == "yaml":
         d = tempfile.mkdtemp(prefix="c02")
         f = os.path.join(d, "t.yaml")
@@ -118,37 +125,36 @@ def build(case):
         T = Tensor.fromYAMLfile(f)
         os.remove(f)
         os.rmdir(d)
-        return T
+        return T, base
     if kind == "deepcopy-mutated":
-        for pt in case["mut"]:
-            base.getPayloadRef(*pt)
-        return copy.deepcopy(base)
+        return copy.deepcopy(base), base
     if kind == "copy-root":
-        return Tensor.fromFiber(rank_ids=ids, fiber=base.getRoot(), shape=case["shapes"])   # owned root: setRoot copies
+        # the root already belongs to `base`: setRoot must copy it and leave `base` intact
+        return Tensor.fromFiber(rank_ids=ids, fiber=base.getRoot(), shape=case["shapes"]), base
     d = min(case["depth"], n - 1)
     if kind == "splitUniform":
-        return base.splitUniform(case["arg"], depth=d)
+        return base.splitUniform(case["arg"], depth=d), base
     if kind == "splitNonUniform":
-        return base.splitNonUniform([0, case["arg"]], depth=d)
+        return base.splitNonUniform([0, case["arg"]], depth=d), base
     if kind == "splitEqual":
-        return base.splitEqual(case["arg"], depth=d)
+        return base.splitEqual(case["arg"], depth=d), base
     if kind == "splitUnEqual":
-        return base.splitUnEqual([1, case["arg"]], depth=d)
+        return base.splitUnEqual([1, case["arg"]], depth=d), base
     if kind == "swizzle":
-        return base.swizzleRanks([ids[i] for i in case["perm"]])
+        return base.swizzleRanks([ids[i] for i in case["perm"]]), base
     d2 = min(case["depth"], n - 2)
     if kind == "swap":
-        return base.swapRanks(depth=d2)
+        return base.swapRanks(depth=d2), base
     if kind == "flatten":
-        return base.flattenRanks(depth=d2, levels=1)
+        return base.flattenRanks(depth=d2, levels=1), base
     if kind == "flatten-unflatten":
-        return base.flattenRanks(depth=d2, levels=1).unflattenRanks(depth=d2, levels=1)
+        return base.flattenRanks(depth=d2, levels=1).unflattenRanks(depth=d2, levels=1), base
     if kind == "merge":
-        return base.mergeRanks(depth=d2, levels=1, coord_style="absolute")
+        return base.mergeRanks(depth=d2, levels=1, coord_style="absolute"), base
     if kind == "updateCoords":
-        return base.updateCoords(lambda i, c, p: c + 1, depth=d)
+        return base.updateCoords(lambda i, c, p: c + 1, depth=d), base
     if kind == "updatePayloads":
-        return base.updatePayloads(lambda i, c, p: p + 1, depth=n - 1)
+        return base.updatePayloads(lambda i, c, p: p + 1, depth=n - 1), base
     raise ValueError(kind)
 
 
@@ -159,15 +165,24 @@ def _zeros(shapes):
 
 
 def run_impl(case):
-    T = build(case)
-    return [len(T.getRankIds())] + state_obs(T)
+    T, S = build(case)
+    if S is None:
+        S = T
+    return [[len(T.getRankIds())] + state_obs(T), [len(S.getRankIds())] + state_obs(S)]
 
 
 def case_to_coq2(case, obs):
-    # obs = [n, tree, ranks, owners]; the Coq case is (n, result tree)
-    if not isinstance(obs, list) or len(obs) != 4 or not isinstance(obs[1], list):
-        return "(Build_ctor_case 0%nat (Node []))"
-    return "(Build_ctor_case %s %s)" % (L.nat(obs[0]), L.tree(_lit(obs[1])))
+    # obs = [[n, tree, ranks, owners] of the result, the same of the source afterwards];
+    # the Coq case is (n, result tree, n_src, source tree)
+    bad = "(Build_ctor_case 0%nat (Node []) 0%nat (Node []))"
+    if not isinstance(obs, list) or len(obs) != 2:
+        return bad
+    parts = []
+    for o in obs:
+        if not isinstance(o, list) or len(o) != 4 or not isinstance(o[1], list) or not isinstance(o[0], int):
+            return bad
+        parts += [L.nat(o[0]), L.tree(_lit(o[1]))]
+    return "(Build_ctor_case %s)" % " ".join(parts)
 
 
 def _lit(t):
@@ -187,4 +202,4 @@ def _lit(t):
 
 
 def case_to_coq(case):
-    return "(Build_ctor_case 0%nat (Node []))"
+    return "(Build_ctor_case 0%nat (Node []) 0%nat (Node []))"
